@@ -601,6 +601,7 @@ def decided_winner(levels: T.Iterable[str]) -> T.Optional[str]:
 def gen_project(rng: random.Random, idx: int) -> dict:
     """A small C project with duplicated settings at global/project/option/dependency/target level."""
     macros: T.Dict[str, T.Dict[str, T.List[str]]] = {}
+    use_env = rng.random() < 0.5        # the option level arrives through $CFLAGS/$CPPFLAGS (+ $LDFLAGS) instead of -D
     # LVL: distinct value per level
     lv = [lvl for lvl in LEVELS if rng.random() < 0.7] or ['T']
     macros['LVL'] = {lvl: [f'-DLVL={lvl}'] for lvl in lv}
@@ -671,8 +672,21 @@ def gen_project(rng: random.Random, idx: int) -> dict:
     mb.append("thr = dependency('threads')")
     deps += ['thr'] * rng.randint(0, 2)
     rng.shuffle(deps)
-    mb.append(f"l1 = {libkind}('l1', 'l1.c', c_args: [{q(level_args['T'])}], include_directories: inc_t)")
-    mb.append("l2 = static_library('l2', 'l2.c', dependencies: dep)")
+    # per-target base arguments: symbol visibility and b_* overrides differ from target to target
+    tbase: T.Dict[str, dict] = {}
+
+    def base_kw(name: str) -> str:
+        vis = rng.choice([None, None, 'hidden', 'default', 'internal', 'protected'])
+        nd = rng.choice([None, None, 'true', 'false'])
+        tbase[name] = {'visibility': vis, 'b_ndebug': nd}
+        kw = ''
+        if vis:
+            kw += f", gnu_symbol_visibility: '{vis}'"
+        if nd:
+            kw += f", override_options: ['b_ndebug={nd}']"
+        return kw
+    mb.append(f"l1 = {libkind}('l1', 'l1.c', c_args: [{q(level_args['T'])}], include_directories: inc_t{base_kw('l1')})")
+    mb.append(f"l2 = static_library('l2', 'l2.c', dependencies: dep{base_kw('l2')})")
     links = ['l1', 'l2']
     if use_sub:
         mb.append("sub = subproject('sub')")
@@ -680,7 +694,7 @@ def gen_project(rng: random.Random, idx: int) -> dict:
         deps.append('sub_dep')
     incs = ['inc_t'] + (['inc_s'] if sdirs else [])
     mb.append(f"exe = executable('exe', 'main.c', c_args: [{q(level_args['T'])}], include_directories: [{', '.join(incs)}], "
-              f"dependencies: [{', '.join(deps)}], link_with: [{', '.join(links)}], link_args: ['-lm', '-lm', '-pthread'])")
+              f"dependencies: [{', '.join(deps)}], link_with: [{', '.join(links)}], link_args: ['-lm', '-lm', '-pthread']{base_kw('exe')})")
     # --- dependencies as increments: several declare_dependency objects, some with IDENTICAL contents, interleaved
     # with competing ones (define/undefine pairs, include directories that provide the same header)
     ndirs = ['ninc_a', 'ninc_b', 'ninc_c']
@@ -738,7 +752,7 @@ def gen_project(rng: random.Random, idx: int) -> dict:
     nlisted = [f'nd{i}' for i in range(len(nseq))]
     if rng.random() < 0.3:
         nlisted.insert(rng.randint(0, len(nlisted)), 'thr')
-    mb.append(f"nexe = executable('nexe', 'n.c', dependencies: [{', '.join(nlisted)}])")
+    mb.append(f"nexe = executable('nexe', 'n.c', dependencies: [{', '.join(nlisted)}]{base_kw('nexe')})")
     # the same through include_directories: of the dependencies: first listed is searched first, each directory once
     iseq = [rng.choice(ndirs) for _ in range(rng.randint(2, 4))]
     if rng.random() < 0.7:
@@ -746,7 +760,7 @@ def gen_project(rng: random.Random, idx: int) -> dict:
         iseq = [x, y, x] + iseq[:1]
     for i, d in enumerate(iseq):
         mb.append(f"ni{i} = declare_dependency(include_directories: include_directories('{d}'))")
-    mb.append(f"nexe2 = executable('nexe2', 'n.c', dependencies: [{', '.join(f'ni{i}' for i in range(len(iseq)))}])")
+    mb.append(f"nexe2 = executable('nexe2', 'n.c', dependencies: [{', '.join(f'ni{i}' for i in range(len(iseq)))}]{base_kw('nexe2')})")
     # link arguments of the dependencies: -L/-l sets are kept as given (no reordering, repeated -l kept)
     lpool = [['-L/opt/zq_a', '-lzq_a', '-lzq_shared'], ['-L/opt/zq_b', '-lzq_b', '-lzq_shared'],
              ['-lzq_a', '-L/opt/zq_a', '-lzq_a'], ['-Wl,-rpath,/opt/zq', '-lzq_c', '-L/opt/zq_a', '-lm']]
@@ -756,7 +770,7 @@ def gen_project(rng: random.Random, idx: int) -> dict:
     for i, la in enumerate(lseq):
         mb.append(f"nl{i} = declare_dependency(link_args: [{q(la)}])")
     mb.append(f"nexe3 = executable('nexe3', 'main.c', dependencies: [{', '.join(f'nl{i}' for i in range(len(lseq)))}]"
-              f"{', link_with: l2' if rng.random() < 0.5 else ''})")
+              f"{', link_with: l2' if rng.random() < 0.5 else ''}{base_kw('nexe3')})")
     # several languages: arguments registered for ['c', 'cpp'], then for one language, then for both again
     multi: T.Optional[dict] = None
     if rng.random() < 0.5:
@@ -779,6 +793,8 @@ def gen_project(rng: random.Random, idx: int) -> dict:
         mb.append("zc = executable('zc', 'zc.c')")
         mb.append("zcpp = executable('zcpp', 'zcpp.cpp')")
     files: T.Dict[str, str] = {'meson.build': '\n'.join(mb) + '\n',
+                               'zqe1.h': '#define ZQE1 1\n', 'zqe2.h': '#define ZQE2 1\n',
+                               'zqs1/zqs.h': '/* 1 */\n', 'zqs2/zqs.h': '/* 2 */\n',
                                'zc.c': 'int main(void) { return 0; }\n', 'zcpp.cpp': 'int main() { return 0; }\n',
                                'n.c': '#include <which.h>\nint main(void) { return WHICH; }\n',
                                'ninc_a/which.h': '#define WHICH 1\n', 'ninc_b/which.h': '#define WHICH 2\n',
@@ -793,10 +809,38 @@ def gen_project(rng: random.Random, idx: int) -> dict:
             "sl = static_library('sl', 'sl.c')\nsub_dep = declare_dependency(link_with: sl, compile_args: ['-DFROMSUB'])\n")
         files['subprojects/sub/sl.c'] = 'int sl(void) { return 3; }\n'
     argv = ['setup', 'build']
-    if level_args['O']:
-        argv.append('-Dc_args=' + ' '.join(level_args['O']))
-    if rng.random() < 0.5:
-        argv.append('-Dc_link_args=-lm -Wl,--as-needed')
+    env: T.Dict[str, str] = {}
+    env_c: T.List[str] = []
+    env_ld: T.List[str] = []
+    env_shared = False
+    if use_env:
+        # flags from the environment: two-token options used twice, a setting repeated after its opposite, identical
+        # non-dedupable flags - one increment whose eager meaning must reach every command line
+        extras = [['-DZE=1', '-UZE', '-DZE=1'], ['-UZE', '-DZE=1', '-UZE'],
+                  ['-Xpreprocessor', '-DZEP1', '-Xpreprocessor', '-DZEP2'],
+                  ['-isystem', '@SRC@/zqs1', '-isystem', '@SRC@/zqs2'],
+                  ['-include', '@SRC@/zqe1.h', '-include', '@SRC@/zqe2.h'],
+                  ['-fno-asynchronous-unwind-tables', '-fno-asynchronous-unwind-tables']]
+        for e_ in rng.sample(extras, rng.randint(1, 3)):
+            if not (e_[0] in ('-DZE=1', '-UZE') and any(x in env_c for x in ('-DZE=1', '-UZE'))):
+                env_c += e_
+        ldpool = [['-Xlinker', '--as-needed', '-Xlinker', '-O1'], ['-Wl,-z,nodlopen', '-Wl,-z,nodelete', '-Wl,-z,nodlopen'],
+                  ['-Xlinker', '--no-undefined', '-Wl,-z,nodlopen', '-Xlinker', '--as-needed']]
+        if rng.random() < 0.3:
+            # "it is a thing to inject linker flags both via CFLAGS and LDFLAGS": the same two-token linker option in both
+            env_shared = True
+            env_c += ['-Xlinker', '-O1']
+            env_ld = ['-Xlinker', '-O1', '-Wl,-z,nodlopen']
+        elif rng.random() < 0.8:
+            env_ld = list(rng.choice(ldpool))
+        if env_ld:
+            env['LDFLAGS'] = ' '.join(env_ld)
+        env[rng.choice(['CFLAGS', 'CPPFLAGS'])] = ' '.join(level_args['O'] + env_c)
+    else:
+        if level_args['O']:
+            argv.append('-Dc_args=' + ' '.join(level_args['O']))
+        if rng.random() < 0.5:
+            argv.append('-Dc_link_args=-lm -Wl,--as-needed')
     argv.append('-Dbuildtype=' + rng.choice(['debug', 'release', 'debugoptimized', 'plain', 'minsize']))
     if rng.random() < 0.3:
         argv.append('-Dwerror=true')
@@ -806,10 +850,10 @@ def gen_project(rng: random.Random, idx: int) -> dict:
         argv.append('-Db_pie=true')
     if rng.random() < 0.3:
         argv.append('-Dc_std=' + rng.choice(['c99', 'gnu11']))
-    return {'idx': idx, 'files': files, 'argv': argv, 'macros': per_level_macro, 'nseq': nseq, 'iseq': iseq, 'lseq': lseq, 'cchecks': cchecks, 'multi': multi, 'tdirs': tdirs, 'ddirs': ddirs,
+    return {'idx': idx, 'files': files, 'argv': argv, 'macros': per_level_macro, 'nseq': nseq, 'iseq': iseq, 'lseq': lseq, 'cchecks': cchecks, 'env': env, 'env_c': env_c, 'env_ld': env_ld, 'env_shared': env_shared, 'tbase': tbase, 'multi': multi, 'tdirs': tdirs, 'ddirs': ddirs,
             'sdirs': sdirs, 'dup_dir': dup_dir, 'use_sub': use_sub, 'global_args': level_args['G'],
             'project_args': level_args['P'], 'features': sorted(
-                [f'lib:{libkind}'] + (['c+cpp'] if multi else []) + (['subproject'] if use_sub else []) + (['two-deps'] if two_deps else []) +
+                [f'lib:{libkind}'] + [f'env:{k}' for k in env] + (['env:same-linker-option-in-CFLAGS-and-LDFLAGS'] if env_shared else []) + (['c+cpp'] if multi else []) + (['subproject'] if use_sub else []) + (['two-deps'] if two_deps else []) +
                 (['dup-include-dir'] if dup_dir else []) + (['dep-isystem'] if dsys else []) +
                 (['isystem'] if sdirs else []) + [a.split('=')[0] for a in argv[2:]])}
 
@@ -965,7 +1009,13 @@ _WHICH = {'ninc_a': '1', 'ninc_b': '2', 'ninc_c': '3'}
 
 def preprocess(tokens: T.List[str], source: str, cwd: str) -> T.Optional[T.Dict[str, str]]:
     """Macros the real preprocessor ends up with for `source` under the -I/-D/-U tokens, in their order."""
-    sel = [t for t in tokens if t.startswith(('-I', '-D', '-U', '-isystem'))]
+    sel: T.List[str] = []
+    it = iter(tokens)
+    for t in it:
+        if t in ('-I', '-D', '-U', '-isystem', '-include', '-Xpreprocessor'):
+            sel += [t, next(it, '')]
+        elif t.startswith(('-I', '-D', '-U', '-isystem')):
+            sel.append(t)
     try:
         p = subprocess.run(['gcc', '-E', '-dM', '-x', 'c', '-'] + sel, input=source.encode(), cwd=cwd,
                            stdout=subprocess.PIPE, stderr=subprocess.DEVNULL, timeout=30)
@@ -1127,6 +1177,55 @@ def check_compiler_checks(proj: dict, out: str) -> T.Tuple[T.Dict[str, int], T.L
     return cnt, bad
 
 
+def check_env_flags(proj: dict, src: str, tokens: T.List[str], link: bool) -> T.Tuple[T.Dict[str, int], T.List[T.Tuple[str, dict]]]:
+    """Flags taken from $CFLAGS/$CPPFLAGS ($LDFLAGS) are one option-derived increment: on every compile (link)
+    line the arguments only the environment supplied appear with the eager meaning of that one batch."""
+    cnt: T.Dict[str, int] = {}
+    bad: T.List[T.Tuple[str, dict]] = []
+    given = [t.replace('@SRC@', src) for t in (proj['env_ld'] if link else proj['env_c'])]
+    if not given:
+        return cnt, bad
+    ref = refargs.RefArgs(refargs.CLIKE)
+    ref.add_batch(given)
+    ns = set(given)
+    expected = [t for t in ref.items if t in ns]
+    observed = [t for t in tokens if t in ns]
+    key = 'e2e:env-link-flags' if link else 'e2e:env-compile-flags'
+    cnt[key] = 1
+    if observed != expected:
+        bad.append((('e2e-environment-link-flags-differ-from-eager:' if link else 'e2e-environment-flags-differ-from-eager:') +
+                    S.classify_list_diff(refargs.CLIKE, observed, expected),
+                    {'observed': observed, 'expected': expected, 'environment': proj['env']}))
+    if not link and any(t in ('-DZE=1', '-UZE') for t in given):
+        eff = preprocess(tokens, '', os.path.join(src, 'build'))
+        if eff is not None:
+            cnt['e2e:env-effective-macro'] = 1
+            want = [t for t in given if t in ('-DZE=1', '-UZE')][-1] == '-DZE=1'
+            if ('ZE' in eff) != want:
+                bad.append(('e2e-environment-setting-later-one-does-not-win', {'ZE_defined': 'ZE' in eff, 'expected_defined': want,
+                                                                               'environment': proj['env']}))
+    return cnt, bad
+
+
+def check_target_base_args(proj: dict, target: str, tokens: T.List[str]) -> T.Tuple[T.Dict[str, int], T.List[T.Tuple[str, dict]]]:
+    """Every target's compile line carries ITS OWN base arguments (gnu_symbol_visibility:, override_options of a b_*
+    option), nobody else's."""
+    cnt = {'e2e:target-base-args': 1}
+    bad: T.List[T.Tuple[str, dict]] = []
+    tb = proj['tbase'][target]
+    want_vis = [f"-fvisibility={tb['visibility']}"] if tb['visibility'] and tb['visibility'] != 'default' else (
+        ['-fvisibility=default'] if tb['visibility'] == 'default' else [])
+    got_vis = [t for t in tokens if t.startswith('-fvisibility=')]
+    if got_vis != want_vis:
+        bad.append(('e2e-target-base-arguments-of-another-target:visibility',
+                    {'target': target, 'observed': got_vis, 'expected': want_vis, 'settings': proj['tbase']}))
+    nd = tb['b_ndebug'] if tb['b_ndebug'] else ('true' if '-Db_ndebug=true' in proj['argv'] else 'false')
+    if ('-DNDEBUG' in tokens) != (nd == 'true'):
+        bad.append(('e2e-target-base-arguments-of-another-target:b_ndebug',
+                    {'target': target, 'NDEBUG_on_line': '-DNDEBUG' in tokens, 'expected': nd == 'true', 'settings': proj['tbase']}))
+    return cnt, bad
+
+
 def run_project(proj: dict, root: T.Optional[str] = None) -> dict:
     """One real `meson setup` with the shadow installed + the end-to-end checks. Plain data out."""
     own = root is None
@@ -1136,7 +1235,9 @@ def run_project(proj: dict, root: T.Optional[str] = None) -> dict:
     try:
         runner.write_tree(src, proj['files'])
         build_probe_libs(src)
-        r = runner.meson(proj['argv'], cwd=src, env={'MESON_FORCE_BACKTRACE': ''}, monitors=[S.install_shadow], timeout=180)
+        menv = {'MESON_FORCE_BACKTRACE': ''}
+        menv.update({k: v.replace('@SRC@', src) for k, v in proj.get('env', {}).items()})
+        r = runner.meson(proj['argv'], cwd=src, env=menv, monitors=[S.install_shadow], timeout=180)
         if r.timed_out:
             res['status'] = 'timeout'
             return res
@@ -1187,6 +1288,27 @@ def run_project(proj: dict, root: T.Optional[str] = None) -> dict:
                 w['statement'] = out
                 res['viol'].append((mech, w))
         res['counters']['e2e:compile-statements'] = len(stmts)
+        more: T.List[T.Tuple[T.Dict[str, int], T.List[T.Tuple[str, dict]], str, T.List[str]]] = []
+        for out, tokens in stmts.items():
+            if out.startswith('subprojects/'):
+                continue
+            mt = re.match(r'^(?:lib)?(\w+?)(?:\.a|\.so)?\.p$', out.split('/')[0])
+            if mt and mt.group(1) in proj.get('tbase', {}):
+                more.append(check_target_base_args(proj, mt.group(1), tokens) + (out, tokens))
+            if proj.get('env_c') and out.endswith('.c.o'):
+                more.append(check_env_flags(proj, src, tokens, False) + (out, tokens))
+        if proj.get('env_ld') and not proj.get('env_shared'):
+            # (when the same token is in both variables the link line holds both copies; their mutual order is undocumented)
+            for out, rule, var in parse_statements(ninja_text):
+                if rule == 'c_LINKER' and 'LINK_ARGS' in var and not out.startswith('subprojects/'):
+                    more.append(check_env_flags(proj, src, var['LINK_ARGS'], True) + (out, var['LINK_ARGS']))
+        for cnt, bad, out, tokens in more:
+            for k, v in cnt.items():
+                res['counters'][k] = res['counters'].get(k, 0) + v
+            for mech, w in bad:
+                w = dict(w)
+                w.update({'statement': out, 'ARGS': tokens})
+                res['viol'].append((mech, w))
         for out, tokens in stmts.items():
             private_dir = out.split('/')[0]
             if out.startswith('subprojects/'):
@@ -1415,7 +1537,8 @@ def main() -> int:
               'e2e:per-language-compile-args', 'e2e:per-language-link-args', 'e2e:compiler-check:args',
               'e2e:compiler-check:incs', 'e2e:compiler-check:dep', 'e2e:compiler-check:lib',
               'meson:contract:compile-check-increment:several-dirs', 'meson:contract:to_native-result-independent',
-              'contract:to_native-result-independent', 'read:to_native-kept-result'):
+              'contract:to_native-result-independent', 'read:to_native-kept-result', 'e2e:env-compile-flags',
+              'e2e:env-link-flags', 'e2e:target-base-args', 'meson:contract:check-link-option-args'):
         chk.require(m, 1)
     if chk.counters.get('shadow:adopted', 0):
         chk.notes['adopted_in_process'] = chk.counters['shadow:adopted']
